@@ -1,7 +1,14 @@
 import CLModel.Proto
 import CLModel.Checks.Base
 import CLModel.Compare.Pipeline
+import CLModel.Compare.Decode
+import CLModel.Rx.Steps
+import CLModel.Ops.Rx
 import CLModel.Ops.C04
+import CLModel.Ops.C01
+import CLModel.Ops.C07
+import CLModel.Ops.C08
+import CLModel.Ops.C09
 namespace Ops.C05
 open Proto
 
@@ -53,33 +60,266 @@ def showReport (r : Pipe.Report) : String :=
     "/".intercalate (p.1.map showText) ++ ":" ++ "|".intercalate (p.2.map (fun d => showCat d.1 ++ "=" ++ showDVal d.2))))
   s!"ok summary[{summ}] details[{det}] merge={Ops.C04.showOutcome r.merge}"
 
-/-- c05.compare <fmt> <ref> <l10n> <merge 0|1> -/
-def opCompare (toks : List String) : String :=
-  match toks with
-  | [f, r, l, m] =>
-    match parseFmt f, parseText r, parseText l with
-    | some f, some r, some l =>
-      match Pipe.compareTexts f r.toArray l.toArray (m == "1") with
-      | .ok rep => showReport rep
-      | .error e => "raise " ++ e.name
-    | _, _, _ => "bad-args"
-  | _ => "bad-args"
+/-! ### the external functions as finite tables (what the real run observed)
+
+`X <n> (<doc> <line|-> <col> <msg> <text>)*n`: expat's verdict per document handed to `parser.parse` (a document that
+is not in the table gets the verdict "no-verdict": the model built a document the code did not);
+`U <k> (<raw> <val>)*k`: `html.unescape(raw)` per raw value (texts without `&` are returned as they are, as the
+library does; any other miss gives "no-unescape"). -/
+
+def parseXmlTable : Nat → List String → Option (List (Dtd.Bytes × Dtd.ParseRes) × List String)
+  | 0, rest => some ([], rest)
+  | n + 1, d :: l :: c :: m :: t :: rest => do
+    let d ← parseText d
+    let c ← parseNat c
+    let m ← parseText m
+    let t ← parseText t
+    let v : Dtd.ParseRes ← (if l == "-" then some ⟨none, t⟩ else (parseNat l).map (fun l => ⟨some (l, c, m), t⟩))
+    let (tb, r) ← parseXmlTable n rest
+    pure ((d, v) :: tb, r)
+  | _, _ => none
+
+def parseUnescTable : Nat → List String → Option (List (List Nat × List Nat) × List String)
+  | 0, rest => some ([], rest)
+  | n + 1, a :: b :: rest => do
+    let a ← parseText a
+    let b ← parseText b
+    let (tb, r) ← parseUnescTable n rest
+    pure ((a, b) :: tb, r)
+  | _, _ => none
+
+def tableUnescape (tbl : List (List Nat × List Nat)) (raw : List Nat) : List Nat :=
+  match tbl.find? (·.1 == raw) with
+  | some (_, v) => v
+  | none => if raw.contains 38 then [110, 111, 45, 117, 110, 101, 115, 99, 97, 112, 101] else raw
+
+/-- `[X <n> … U <k> …]` → the externals; no tokens = nothing is called -/
+def parseExt : List String → Option Pipe.Ext
+  | [] => some default
+  | "X" :: n :: rest => do
+    let n ← parseNat n
+    let (xt, rest) ← parseXmlTable n rest
+    match rest with
+    | "U" :: k :: rest => do
+      let k ← parseNat k
+      let (ut, rest) ← parseUnescTable k rest
+      if rest.isEmpty then pure { xml := Ops.C07.tableParse xt, unescape := tableUnescape ut } else none
+    | _ => none
+  | _ => none
+
+def showRes : Except Pipe.PyErr Pipe.Report → String
+  | .ok rep => showReport rep
+  | .error e => "raise " ++ e.name
 
 def showLintResult (r : Lint.Result) : String :=
   s!"{r.lineno},{r.column},{showText r.level},{showText r.message}"
 
-/-- c05.lint <fmt> <ref | -> <cur> -/
+def showLint : Except Pipe.PyErr (List Lint.Result) → String
+  | .ok rs => "ok " ++ "|".intercalate (rs.map showLintResult)
+  | .error e => "raise " ++ e.name
+
+/-- c05.compare <fmt> <ref> <l10n> <merge 0|1> [X … U …] -/
+def opCompare (toks : List String) : String :=
+  match toks with
+  | f :: r :: l :: m :: ext =>
+    match parseFmt f, parseText r, parseText l, parseExt ext with
+    | some f, some r, some l, some ext => showRes (Pipe.compareTexts ext f r.toArray l.toArray (m == "1"))
+    | _, _, _, _ => "bad-args"
+  | _ => "bad-args"
+
+/-- c05.lint <fmt> <ref | -> <cur> [X … U …] -/
 def opLint (toks : List String) : String :=
   match toks with
-  | [f, r, c] =>
-    match parseFmt f, (if r == "-" then some none else (parseText r).map some), parseText c with
-    | some f, some r, some c =>
-      match Pipe.lintText f (r.map List.toArray) c.toArray with
-      | .ok rs => "ok " ++ "|".intercalate (rs.map showLintResult)
-      | .error e => "raise " ++ e.name
+  | f :: r :: c :: ext =>
+    match parseFmt f, (if r == "-" then some none else (parseText r).map some), parseText c, parseExt ext with
+    | some f, some r, some c, some ext => showLint (Pipe.lintText ext f (r.map List.toArray) c.toArray)
+    | _, _, _, _ => "bad-args"
+  | _ => "bad-args"
+
+/-! ### Fluent / Android: the external parser's output is part of the input
+
+  ftl body    := <n> item*n          item := <kind> s e ks ke vs ve ("A" <words> <eqc> <entry of Ops/C08> | "-")
+  android     := <n> aitem*n         aitem := "J" <all> | "E" <key> <node of Ops/C09 (with pre)> -/
+
+def parseFtlItems : Nat → List String → Option (List Pipe.FtlItem × List String)
+  | 0, rest => some ([], rest)
+  | n + 1, k :: s :: e :: ks :: ke :: vs :: ve :: rest => do
+    let k ← Ops.C01.parseFKind k
+    let s ← parseNat s
+    let e ← parseNat e
+    let ks ← parseInt ks
+    let ke ← parseInt ke
+    let vs ← parseInt vs
+    let ve ← parseInt ve
+    let fe : P.FEntry := { kind := k, s := s, e := e, ks := ks, ke := ke, vs := vs, ve := ve }
+    match rest with
+    | "-" :: rest => do
+      let (is, r) ← parseFtlItems n rest
+      pure ({ fe := fe } :: is, r)
+    | "A" :: w :: c :: rest => do
+      let w ← parseNat w
+      let c ← parseNat c
+      let (a, rest) ← Ops.C08.pEntry rest
+      let (is, r) ← parseFtlItems n rest
+      pure ({ fe := fe, ast := some a, words := w, eqc := c } :: is, r)
+    | _ => none
+  | _, _ => none
+
+def parseFtlBody : List String → Option (List Pipe.FtlItem × List String)
+  | n :: rest => do
+    let n ← parseNat n
+    parseFtlItems n rest
+  | [] => none
+
+/-- `<n> item*n` (a body) or `! <class name as text> <str(e)>` (the external parser raised) -/
+def parseFtlParse : List String → Option (Pipe.FtlParse × List String)
+  | "!" :: name :: msg :: rest => do
+    let name ← parseText name
+    let msg ← parseText msg
+    pure (.raises (String.ofList (name.map Char.ofNat)) msg, rest)
+  | toks => (parseFtlBody toks).map (fun p => (.body p.1, p.2))
+
+def parseAItems : Nat → List String → Option (List Pipe.AItem × List String)
+  | 0, rest => some ([], rest)
+  | n + 1, "J" :: a :: rest => do
+    let a ← parseText a
+    let (is, r) ← parseAItems n rest
+    pure (.junk a :: is, r)
+  | n + 1, "E" :: k :: rest => do
+    let k ← parseText k
+    let (node, pre, rest) ← Ops.C09.parseNode rest
+    let (is, r) ← parseAItems n rest
+    pure (.entity k pre node :: is, r)
+  | _, _ => none
+
+def parseABody : List String → Option (List Pipe.AItem × List String)
+  | n :: rest => do
+    let n ← parseNat n
+    parseAItems n rest
+  | [] => none
+
+/-- c05.cmpftl <ref text> <l10n text> <merge 0|1> <ref parse> <l10n parse> -/
+def opCmpFtl (toks : List String) : String :=
+  match toks with
+  | r :: l :: m :: rest =>
+    match parseText r, parseText l, parseFtlParse rest with
+    | some r, some l, some (rb, rest) =>
+      match parseFtlParse rest with
+      | some (lb, []) =>
+        showRes (Pipe.compareFtlP (Pipe.refFileNamed Pipe.ftlFileName) (Pipe.fileNamed Pipe.ftlFileName) Pipe.stdObs l.toArray r.toArray rb lb (m == "1"))
+      | _ => "bad-args"
     | _, _, _ => "bad-args"
   | _ => "bad-args"
 
+/-- c05.lintftl <cur text> <cur parse> ("-" | <ref text> <ref parse>) -/
+def opLintFtl (toks : List String) : String :=
+  match toks with
+  | c :: rest =>
+    match parseText c, parseFtlParse rest with
+    | some c, some (cb, rest) =>
+      match rest with
+      | ["-"] => showLint (Pipe.lintFtlP none c.toArray cb)
+      | r :: rest =>
+        match parseText r, parseFtlParse rest with
+        | some r, some (rb, []) => showLint (Pipe.lintFtlP (some (r.toArray, rb)) c.toArray cb)
+        | _, _ => "bad-args"
+      | _ => "bad-args"
+    | _, _ => "bad-args"
+  | _ => "bad-args"
+
+/-- c05.cmpxml <l10n text> <merge 0|1> <ref items> <l10n items> -/
+def opCmpXml (toks : List String) : String :=
+  match toks with
+  | l :: m :: rest =>
+    match parseText l, parseABody rest with
+    | some l, some (ri, rest) =>
+      match parseABody rest with
+      | some (li, []) =>
+        showRes (Pipe.compareAndroid (Pipe.fileNamed Pipe.androidFileName) Pipe.stdObs l.toArray ri li (m == "1"))
+      | _ => "bad-args"
+    | _, _ => "bad-args"
+  | _ => "bad-args"
+
+/-- c05.lintxml <cur text> <cur items> ("-" | <ref items>) -/
+def opLintXml (toks : List String) : String :=
+  match toks with
+  | c :: rest =>
+    match parseText c, parseABody rest with
+    | some c, some (ci, rest) =>
+      match rest with
+      | ["-"] => showLint (Pipe.lintAndroid none c.toArray ci)
+      | _ =>
+        match parseABody rest with
+        | some (ri, []) => showLint (Pipe.lintAndroid (some ri) c.toArray ci)
+        | _ => "bad-args"
+    | _, _ => "bad-args"
+  | _ => "bad-args"
+
+/-- c05.decode <bytes> : `ctx.contents` after `Parser.readFile` of a file with these bytes -/
+def opDecode (toks : List String) : String :=
+  match toks with
+  | [b] =>
+    match parseText b with
+    | some b => showText (Pipe.decode b)
+    | none => "bad-args"
+  | _ => "bad-args"
+
+/-- c05.cmpbytes <fmt> <ref bytes> <l10n bytes> <merge 0|1> [X … U …] : the comparison from the bytes of the files -/
+def opCmpBytes (toks : List String) : String :=
+  match toks with
+  | f :: r :: l :: m :: ext =>
+    match parseFmt f, parseText r, parseText l, parseExt ext with
+    | some f, some r, some l, some ext =>
+      showRes (Pipe.compareBytes ext f (Pipe.stdFile f) Pipe.stdObs r l (m == "1"))
+    | _, _, _, _ => "bad-args"
+  | _ => "bad-args"
+
+/-- c05.rxsteps <@name | inline regex> ; <mode match|search> <budget> <text> : steps of the counted engine, or "over" -/
+def opRxSteps (toks : List String) : String :=
+  match Ops.Rx.lookupRe toks with
+  | some (r, [mode, budget, txt]) =>
+    match parseNat budget, parseText txt with
+    | some b, some t =>
+      let res := if mode == "search" then Rx.searchSteps t.toArray r b else Rx.matchSteps t.toArray r 0 b
+      match res with
+      | some n => toString n
+      | none => "over"
+    | _, _ => "bad-args"
+  | _ => "bad-re"
+
+def obsOf (k : String) : Option ObsM.ObsList :=
+  if k == "-" then some Pipe.stdObs else (parseNat k).map Pipe.filterObs
+
+/-- c05.comparef <filter k | -> <fmt> <ref> <l10n> <merge 0|1> [X … U …] : compare with `Observer(filter=testFilter k)` -/
+def opCompareF (toks : List String) : String :=
+  match toks with
+  | k :: f :: r :: l :: m :: ext =>
+    match obsOf k, parseFmt f, parseText r, parseText l, parseExt ext with
+    | some obs, some f, some r, some l, some ext =>
+      showRes (Pipe.compareFiles ext f (Pipe.stdFile f) obs r.toArray l.toArray (m == "1"))
+    | _, _, _, _, _ => "bad-args"
+  | _ => "bad-args"
+
+/-- c05.addfile <filter k | -> <fmt> <ref> <merge 0|1> [X … U …] : ContentComparer.add -/
+def opAddFile (toks : List String) : String :=
+  match toks with
+  | k :: f :: r :: m :: ext =>
+    match obsOf k, parseFmt f, parseText r, parseExt ext with
+    | some obs, some f, some r, some ext => showRes (Pipe.addFile ext f (Pipe.stdFile f) obs r.toArray (m == "1"))
+    | _, _, _, _ => "bad-args"
+  | _ => "bad-args"
+
+/-- c05.removefile <filter k | -> <fmt> <merge 0|1> : ContentComparer.remove -/
+def opRemoveFile (toks : List String) : String :=
+  match toks with
+  | [k, f, m] =>
+    match obsOf k, parseFmt f with
+    | some obs, some f => showRes (Pipe.removeFile (Pipe.stdFile f) obs (m == "1"))
+    | _, _ => "bad-args"
+  | _ => "bad-args"
+
 def ops : List (String × (List String → String)) :=
-  [("basecheck", opBase), ("c05.compare", opCompare), ("c05.lint", opLint)]
+  [("basecheck", opBase), ("c05.rxsteps", opRxSteps), ("c05.comparef", opCompareF), ("c05.addfile", opAddFile),
+   ("c05.removefile", opRemoveFile), ("c05.decode", opDecode), ("c05.cmpbytes", opCmpBytes), ("c05.compare", opCompare), ("c05.lint", opLint),
+   ("c05.cmpftl", opCmpFtl), ("c05.lintftl", opLintFtl), ("c05.cmpxml", opCmpXml), ("c05.lintxml", opLintXml)]
 end Ops.C05
